@@ -1,8 +1,18 @@
 /-
-Witnesses that the printer of the pinned snapshot (`Sqfs.QuoteOld`, `bin/rdsquashfs/src/describe.c` before
-`fixes/C16-describe-quoting.patch`) violates C16: concrete nodes whose describe line the (unchanged) pack-file
-parser rejects or decodes to a different entry.  Each witness is replayed on the real tools by the check
-(`tools/checks/c16.py`, keys `D13:*` in `known_findings.d/C16.json`).
+Witnesses of violations of C16.
+
+**Section LF (open defect of /repo).**  The printer as it is in /repo (`Sqfs.Quote.describeNode`, after 96e45c1)
+prints a symlink target or an `<unpack-root>/<path>` location that contains a line feed; the pack-file format has no
+way to carry one (`istream_get_line` cuts at every LF, `split_line` has no escape for it), so the listing is rejected
+by `gensquashfs --pack-file` — or, worse, silently decoded to a different tree: whatever follows the LF is read as
+pack-file lines of its own.  The property excludes LF from entry *names* only.  Replayed on the real code by every
+run of the check (`corpus/C16/lf.cases.json`; keys `LF:*` in `known_findings.d/C16.json` until
+`fixes/C16-describe-newline.patch` is committed).
+
+**Section D13 (repaired by 96e45c1, kept as regression inputs).**  The printer of the pinned snapshot
+(`Sqfs.QuoteOld`) quoted names only on space/`"`, escaped only `"`, printed targets and locations verbatim and never
+printed the root: concrete nodes whose line the pack-file parser rejects or decodes to a different entry.  The same
+nodes are replayed on the real code by every run (`corpus/C16/witnesses.cases.json`) and must round-trip now.
 -/
 import Sqfs.Model.QuoteOld
 import Sqfs.Spec.Quote
@@ -17,6 +27,59 @@ def oldRoundTrip (ur : Option Sqfs.Path.Bytes) (comps : List Sqfs.Path.Bytes) (n
 
 def slinkNode (t : Sqfs.Path.Bytes) : Node := { kind := .slink, perm := 0o777, uid := 0, gid := 0, target := t }
 def fileNode : Node := { kind := .file, perm := 0o644, uid := 0, gid := 0 }
+
+/-! ## Section LF — the printer in /repo today -/
+
+/-- what the real parser makes of the line the printer in /repo prints for a node -/
+def curRoundTrip (ur : Option Sqfs.Path.Bytes) (comps : List Sqfs.Path.Bytes) (n : Node) :=
+  match describeNode ur comps n with
+  | .ok line => some (fstreeFromFile {} line)
+  | .error _ => none
+
+/-- `LF:target` — symlink `l` → `a<LF>b`: printed as `slink l 0777 0 0 a` / `b`; the first line decodes to a link
+with the wrong target, the second is "error in entry description": gensquashfs exits 1.  (A target that needs quotes,
+e.g. `a b<LF>c`, gives `"a b` on the first line: "missing `\"`".) -/
+theorem cur_target_lf_rejected :
+    curRoundTrip none [[108]] (slinkNode [97, 10, 98])
+      = some ([{ name := [108], mode := 0o120777, uid := 0, gid := 0, rdev := 0, extra := some [97] }], some (.handle .entry)) := by
+  decide
+
+/-- `LF:target`, silent variant — symlink `l` → `a<LF>#b`: the tail of the target starts a line of its own, here
+a comment line; the listing is **accepted** and the rebuilt link points to `a` (same for a target that ends in LF:
+the empty second line is skipped) -/
+theorem cur_target_lf_silently_altered :
+    curRoundTrip none [[108]] (slinkNode [97, 10, 35, 98])
+      = some ([{ name := [108], mode := 0o120777, uid := 0, gid := 0, rdev := 0, extra := some [97] }], none)
+    ∧ curRoundTrip none [[108]] (slinkNode [97, 10])
+      = some ([{ name := [108], mode := 0o120777, uid := 0, gid := 0, rdev := 0, extra := some [97] }], none)
+    ∧ specEntry none [[108]] (slinkNode [97, 10, 35, 98])
+      = some { name := [108], mode := 0o120777, uid := 0, gid := 0, rdev := 0, extra := some [97, 10, 35, 98] } := by decide
+
+/-- `LF:location` — `--unpack-root 'u<LF>p'`, file `f`: printed as `file f 0644 0 0 u` / `p/f` -/
+theorem cur_location_lf_rejected :
+    curRoundTrip (some [117, 10, 112]) [[102]] fileNode
+      = some ([{ name := [102], mode := 0o100644, uid := 0, gid := 0, rdev := 0, extra := some [117] }], some (.handle .entry)) := by
+  decide
+
+/-- `LF:location`, silent variant — `--unpack-root 'u<LF>#'`: the listing is accepted and names `u` as the input
+file of `f` instead of `u<LF>#/f` -/
+theorem cur_location_lf_silently_altered :
+    curRoundTrip (some [117, 10, 35]) [[102]] fileNode
+      = some ([{ name := [102], mode := 0o100644, uid := 0, gid := 0, rdev := 0, extra := some [117] }], none) := by
+  decide
+
+/-- the negation of the full-strength listing theorem for the printer in /repo: a tree every image can hold
+(`RootOkN`, no LF in any *name*) whose listing is printed without complaint and does not decode to the tree -/
+theorem cur_describe_lf_not_rebuilt :
+    ∃ t out, RootOkN t ∧ describe none t = .ok out ∧ fstreeFromFile {} out ≠ (specTree none [] t, none) := by
+  refine ⟨.mk [] { kind := .dir, perm := 0o755, uid := 0, gid := 0 } [.mk [108] (slinkNode [97, 10, 98]) []],
+    [100,105,114,32,47,32,48,55,53,53,32,48,32,48,10, 115,108,105,110,107,32,108,32,48,55,55,55,32,48,32,48,32,97,10,98,10], ?_, ?_, ?_⟩
+  · simp only [RootOkN, ForestOkN, TreeOkN, ImgName, Node.WfN, slinkNode]
+    decide
+  · decide
+  · decide
+
+/-! ## Section D13 — the printer of the pinned snapshot (repaired in /repo by 96e45c1) -/
 
 /-- D13 `target:sep` — `slink d/s 0777 0 0 target with space` → "too many arguments" -/
 theorem old_slink_target_with_space :
